@@ -17,7 +17,8 @@ Prose ↔ statements.
   that contains `:` is read back as cycle + selector when no selector is written after it.
 * "parsing then formatting a canonical identifier string yields the same string" = `tok_detok_partial`
   (canonical string = `canonical t sel`, the documented `~user/workflow:sel//cycle:sel/task:sel/job:sel`).
-* "Relative and absolute forms agree on the task part" = `relative_absolute_agree`.
+* "Relative and absolute forms agree on the task part" = `relative_absolute_agree` (full strength; no
+  ambiguity hypothesis), `relative_absolute_defined` (the common value when the cycle is not ambiguous).
 * "legacy task.cycle and cycle/task identifiers upgrade to the equivalent tokens" = `legacy_upgrade_partial`
   (both forms, lists of any length, absolute and relative calls), `legacy_upgrade_dot` (the `task.cycle`
   form at full strength); the full statement for `cycle/task` is false while the pattern demands two
@@ -98,21 +99,32 @@ example :
 /-! ### relative and absolute forms -/
 
 /-- The relative identifier of the task part (`Tokens.relative_id` / `relative_id_with_selectors`), read
-with `relative=True`, gives exactly the task part of what the absolute identifier reads as. -/
-theorem relative_absolute_agree (t : Tokens) (sel : Bool) (h : wf t = true) (hc : t.cycle.isSome)
-    (hamb : cycleAmbiguous t sel = false) :
-    ∃ abs rel ta tr, detokenise t sel false = some abs ∧ detokenise t.taskPart sel true = some rel ∧
-      tokenise abs false = some ta ∧ tokenise rel true = some tr ∧ tr = ta.taskPart := by
+with `relative=True`, gives exactly the task part of what the absolute identifier reads as — for all valid
+tokens with a cycle, ambiguous cycle texts included (both forms then misread the cycle in the same way). -/
+theorem relative_absolute_agree (t : Tokens) (sel : Bool) (h : wf t = true) (hc : t.cycle.isSome) :
+    ∃ abs rel, detokenise t sel false = some abs ∧ detokenise t.taskPart sel true = some rel ∧
+      tokenise rel true = (tokenise abs false).map Tokens.taskPart := by
   have hw := WF_of_wf h
-  refine ⟨canonical t sel, renderRel t sel, expected t sel, (expected t sel).taskPart,
-    detokenise_canonical t sel hw, ?_, tokenise_canonical t sel hw hamb, tokenise_relative t sel hw hc hamb, rfl⟩
+  refine ⟨canonical t sel, renderRel t sel, detokenise_canonical t sel hw, ?_, tokenise_relative_agree t sel hw hc⟩
+  have := detokenise_relative t.taskPart sel (hw.taskPart hc) rfl rfl
+  rwa [renderRel_taskPart] at this
+
+/-- ... and when the cycle text is not ambiguous both readings are defined and are the expected tokens. -/
+theorem relative_absolute_defined (t : Tokens) (sel : Bool) (h : wf t = true) (hc : t.cycle.isSome)
+    (hamb : cycleAmbiguous t sel = false) :
+    ∃ abs rel, detokenise t sel false = some abs ∧ detokenise t.taskPart sel true = some rel ∧
+      tokenise abs false = some (expected t sel) ∧ tokenise rel true = some (expected t sel).taskPart := by
+  have hw := WF_of_wf h
+  refine ⟨canonical t sel, renderRel t sel, detokenise_canonical t sel hw, ?_,
+    tokenise_canonical t sel hw hamb, tokenise_relative t sel hw hc hamb⟩
   have := detokenise_relative t.taskPart sel (hw.taskPart hc) rfl rfl
   rwa [renderRel_taskPart] at this
 
 example :
     let t : Tokens := { user := some "u".toList, workflow := some "w".toList, cycle := some "1".toList,
                         task := some "t".toList, taskSel := some "failed".toList, job := some "1".toList }
-    wf t = true ∧ detokenise t.taskPart true true = some "1/t:failed/01".toList := by decide
+    wf t = true ∧ t.cycle.isSome ∧ cycleAmbiguous t true = false ∧
+      detokenise t.taskPart true true = some "1/t:failed/01".toList := by decide
 
 /-! ### legacy identifiers -/
 
